@@ -134,6 +134,23 @@ if a.tier == "quick":
 else:
     pairs([(rng.randrange(4), rng.randrange(4), rng.randrange(4), rng.randrange(4)) for _ in range(8)] + [(2, 0, 3, 1), (3, 3, 2, 0), (1, 2, 0, 3)])
 
+# ------------------------------------------------------------------ RGB8 near misses: same index, one component differs
+def rgb_near_miss():
+    for attr in COLOURS:
+        for comp in range(3):
+            for delta in (1, 128, 255):
+                base = [rng.randrange(256) for _ in range(3)]
+                other = list(base); other[comp] = (other[comp] + delta) % 256
+                idx = rng.choice([-1, 0, 5, 255])
+                new()
+                emit(f"setc 0 {attr} {idx}"); emit(f"setrgb 0 {attr} {base[0]} {base[1]} {base[2]}")
+                emit(f"setc 1 {attr} {idx}"); emit(f"setrgb 1 {attr} {other[0]} {other[1]} {other[2]}")
+                emit("equiv 0 1"); emit(f"equivattr 0 1 {attr}")
+                emit("clone 2 1"); emit("copy 2 0 1"); emit("equiv 2 0"); emit("copy 1 0 0"); emit("equiv 1 0")
+                emit(f"setrgb 1 {attr} {base[0]} {base[1]} {base[2]}"); emit("equiv 0 1")
+                stats["rgb_near_miss_histories"] += 1
+rgb_near_miss()
+
 # ------------------------------------------------------------------ description strings
 def gen_base():
     r = rng.random()
@@ -253,6 +270,10 @@ def rand_attr():
 
 def random_history(nops):
     new()
+    pal_idx = [rng.choice([-1, 0, 1, 7, 8, 255, rng.randrange(256)]) for _ in range(2)]
+    b = [rng.randrange(256) for _ in range(3)]
+    k = rng.randrange(3)
+    pal_rgb = [tuple(b), tuple((v + (1 if n == k else 0)) % 256 for n, v in enumerate(b)), (0, 0, 0)]
     for _ in range(nops):
         i, j = rng.randrange(3), rng.randrange(3)
         if rng.random() < 0.15: j = i
@@ -267,11 +288,12 @@ def random_history(nops):
             emit(f"seti {i} {at} {v}", 60)
         elif r < 0.36:
             at = rng.choice(COLOURS) if rng.random() < 0.85 else attr
-            v = rand_value(at); value_classes[vclass(at, v)] += 1
+            v = rng.choice(pal_idx) if rng.random() < 0.5 else rand_value(at); value_classes[vclass(at, v)] += 1
             emit(f"setc {i} {at} {v}", 60)
         elif r < 0.46:
             at = rng.choice(COLOURS) if rng.random() < 0.85 else attr
-            emit(f"setrgb {i} {at} {rng.choice([0, 255, rng.randrange(256)])} {rng.randrange(256)} {rng.randrange(256)}", 60)
+            c = rng.choice(pal_rgb) if rng.random() < 0.7 else (rng.choice([0, 255, rng.randrange(256)]), rng.randrange(256), rng.randrange(256))
+            emit(f"setrgb {i} {at} {c[0]} {c[1]} {c[2]}", 60)
         elif r < 0.52:
             at = rng.choice(COLOURS) if rng.random() < 0.85 else attr
             emit(f"desc {i} {at} {hexs(gen_desc())}", 60)
